@@ -7,8 +7,8 @@ reported as 'findings owned by other properties'.
 from . import sched, workload
 
 TIER = {
-    "quick":    {"corpus_sets": 2, "gen": 600, "plan": {"n_inputs": 6, "maxlen": 28, "n_sched": 5, "exhaustive_n": 6, "n_multi": 2}},
-    "thorough": {"corpus_sets": 10, "gen": 6000, "plan": {"n_inputs": 12, "maxlen": 96, "n_sched": 10, "exhaustive_n": 9, "n_multi": 4}},
+    "quick":    {"corpus_sets": 2, "gen": 600, "plan": {"n_inputs": 6, "maxlen": 28, "n_sched": 5, "exhaustive_n": 6, "n_multi": 2, "n_cover": 6}},
+    "thorough": {"corpus_sets": 10, "gen": 6000, "plan": {"n_inputs": 12, "maxlen": 96, "n_sched": 10, "exhaustive_n": 9, "n_multi": 4, "n_cover": 32}},
 }
 
 RULES = {
@@ -98,6 +98,8 @@ def c04(root, tier, tree):
     tasks += _gen_tasks(root, T["gen"] // 2, plan, 400000, gen_kw={"nearmiss2": True}, stream="program-nearmiss2")
     # yields and end-of-input on non-consuming paths inside loops (end clauses, else clauses, handlers)
     tasks += _gen_tasks(root, T["gen"] // 2, plan, 450000, gen_kw={"nearmiss3": True}, stream="program-nearmiss3")
+    # cycles guarded by data: action-only if/elif chains that leave the loop only for some values of the outputs
+    tasks += _gen_tasks(root, T["gen"] // 2, plan, 500000, gen_kw={"nearmiss4": True}, stream="program-nearmiss4")
     return tasks
 
 
